@@ -42,6 +42,8 @@ pub struct HistCfg {
     pub w_two_hop: u32,
     /// one actor swapping back and forth several times in a row
     pub w_trader: u32,
+    /// sustained high-frequency major swaps on an adaptive pool for more than an hour
+    pub w_burst: u32,
     pub allow_adaptive: bool,
     pub allow_transfer_fee: bool,
     /// seed fee growth accumulators of empty pools to arbitrary values
@@ -67,6 +69,7 @@ impl Default for HistCfg {
             w_setters: 2,
             w_two_hop: 0,
             w_trader: 0,
+            w_burst: 0,
             allow_adaptive: false,
             allow_transfer_fee: false,
             seed_growth: false,
@@ -251,7 +254,7 @@ impl Hist {
             }
         }
         let cfg = self.cfg.clone();
-        let total = cfg.w_swap + cfg.w_liq + cfg.w_fees + cfg.w_clock + cfg.w_lifecycle + cfg.w_reward + cfg.w_setters + cfg.w_two_hop + cfg.w_trader;
+        let total = cfg.w_swap + cfg.w_liq + cfg.w_fees + cfg.w_clock + cfg.w_lifecycle + cfg.w_reward + cfg.w_setters + cfg.w_two_hop + cfg.w_trader + cfg.w_burst;
         for _ in 0..cfg.ops {
             let mut x = w.r.gen_range(0..total);
             let p = w.r.gen_range(0..w.pools.len());
@@ -286,6 +289,7 @@ impl Hist {
             pick!(cfg.w_setters, { self.op_setters(w, p, monitors, acc) });
             pick!(cfg.w_two_hop, { self.op_two_hop(w, monitors, acc) });
             pick!(cfg.w_trader, { self.op_trader_segment(w, p, monitors, acc) });
+            pick!(cfg.w_burst, { self.op_hf_burst(w, monitors, acc) });
         }
         for m in monitors.iter_mut() {
             m.end(w, acc);
@@ -562,6 +566,36 @@ impl Hist {
             let ix = w.swap_ix(p, u, amount, threshold, limit, exact_in, a_to_b, v2);
             self.step(w, ix, monitors, acc);
         }
+    }
+
+    /// Major swaps back and forth, each less than the filter period after the previous one, for more
+    /// than an hour: the reference is never refreshed although the last major swap is always recent.
+    pub fn op_hf_burst(&mut self, w: &mut World, monitors: &mut [Box<dyn Monitor>], acc: &mut Acc) {
+        let cands: Vec<usize> = (0..w.pools.len())
+            .filter(|p| w.pools[*p].adaptive)
+            .filter(|p| w.bank.data(&w.pools[*p].oracle).and_then(codec::Oracle::decode).map(|o| o.constants.filter_period >= 2 && (o.constants.major_swap_threshold_ticks as i32) < 2000).unwrap_or(false))
+            .collect();
+        if cands.is_empty() {
+            return;
+        }
+        let p = *rnd::pick(&mut w.r, &cands);
+        let o = w.bank.data(&w.pools[p].oracle).and_then(codec::Oracle::decode).unwrap();
+        let dt = (o.constants.filter_period as i64 - 1).max(1);
+        let n = (3700 / dt + 3).min(400) as usize;
+        let u = w.r.gen_range(0..w.users.len());
+        let th = o.constants.major_swap_threshold_ticks as i32 + 1;
+        acc.count("hf_bursts");
+        for k in 0..n {
+            w.advance_clock(dt);
+            let st = w.pool_state(p);
+            let a_to_b = k % 2 == 0;
+            let t = (st.tick_current_index + if a_to_b { -th - 1 } else { th + 1 }).clamp(MIN_TICK_INDEX, MAX_TICK_INDEX);
+            let limit = sqrt_price_from_tick_index(t);
+            let ix = w.swap_ix(p, u, u64::MAX / 16, 0, limit, true, a_to_b, true);
+            self.step(w, ix, monitors, acc);
+        }
+        // ... and the swap that comes after the hour
+        self.op_swap(w, p, monitors, acc);
     }
 
     pub fn op_fees(&mut self, w: &mut World, p: usize, monitors: &mut [Box<dyn Monitor>], acc: &mut Acc) {
